@@ -417,6 +417,8 @@ func table(f string, nbr int, seed int) []int {
 	return t
 }
 
+var brEvals = map[int]*blindrot.Evaluator{}
+
 func blindRotations(w *tr.Writer, prog *int, logNBR int, f string, h int, trivial bool, seed int, kstep int) {
 	*prog++
 	fork := 0
@@ -468,7 +470,13 @@ func blindRotations(w *tr.Writer, prog *int, logNBR int, f string, h int, trivia
 	base2 := 7
 	brk := blindrot.GenEvaluationKeyNew(paramsBR, skBR, paramsLWE, skLWE, rlwe.EvaluationKeyParameters{BaseTwoDecomposition: &base2})
 	rec := &recBRK{inner: brk, reqBrk: map[int]bool{}, reqGal: map[uint64]bool{}}
-	ev := blindrot.NewEvaluator(paramsBR, paramsLWE)
+	// one evaluator per ring degree serves every key set of the run (the keys are an argument of Evaluate: nothing of
+	// an earlier key set, generated under other secrets, may survive in the evaluator)
+	ev := brEvals[logNBR]
+	if ev == nil {
+		ev = blindrot.NewEvaluator(paramsBR, paramsLWE)
+		brEvals[logNBR] = ev
+	}
 	q := paramsLWE.Q()[0]
 	// drift allowed: modulus switching of the h non-zero secret coefficients and of b (half a step each), plus the error
 	hh := h
